@@ -7,7 +7,29 @@ NOT_APPLICABLE = {}
 MSG_NOTE = ("Trusted: TLC; the observer module spec/RenetObs.tla (the property clauses); the harness projection (content interning, packet "
             "description through the crate's own decoder behind the `verif` feature). Exhaustive only within the stated small scopes; larger "
             "scopes are sampled by seeded-random schedules.")
+def _msg(text):
+    return {"category": "model_checking", "text": text, "note": MSG_NOTE,
+            "technique": "TLA+/TLC model checking + model-exported schedule replay + TLC trace validation (monitor and strict)"}
+
+
 CHECKS = {
+    "C02": _msg("TLC explores ReliableUnordered workloads (three one-packet messages; small + 3-slice message; 3-slice message with acks and "
+                "retransmission) with duplicates and application receives between any two arrivals; clauses C02_AtMostOnce, C02_Eager (a "
+                "receive that returns nothing while a complete message is held back), C02_Live; all model states replayed on the code; "
+                "seeded-random fault schedules."),
+    "C03": _msg("TLC explores unreliable sliced + small messages and unreliable/reliable mixes with duplicates; clauses C03_Same (obtained "
+                "bytes were submitted on that very connection/direction/channel) and C03_UnrelCount (copies obtained <= what the deliveries "
+                "of every needed packet justify); message bytes are position dependent so misplaced or stitched fragments cannot collide "
+                "with a submitted message; replay + seeded-random schedules with boundary sizes."),
+    "C08": _msg("TLC explores acks, acks of acks and retransmissions (two small messages with 2+2 flushes; a 3-slice message) under any "
+                "loss/reordering; clauses C08_ReleaseSound (a message that left the sender's unacked set was completely handed to the "
+                "peer) and C08_AckSound (every acknowledged sequence number was received); replay + seeded-random ack-loss schedules."),
+    "C14": _msg("TLC explores tight budgets (1200 B with a 2400 B reliable message, 100 B with three 100 B unreliable messages, 150+50 B) "
+                "over several ticks; clauses C14_Bound, C14_Order, C14_UnreliableWhole; replay + seeded-random schedules over all channel "
+                "orders and budgets 0..60000."),
+    "C15": _msg("TLC explores retransmission timing (ticks of 100/300 ms against resend 300 ms, a small message; a 3-slice message with "
+                "partial acks over three flushes); clauses C15_NotEarly, C15_Prompt, C15_NeverAfterAck; replay + seeded-random timing "
+                "schedules (ticks shorter/equal/longer than resend, acks older than the 3 s horizon)."),
     "C01": {
         "category": "model_checking",
         "text": "TLC explores every interleaving of flush / tick / deliver (any subset, order; loss = never delivered or lost at heal) of a "
